@@ -12,19 +12,30 @@
 (***************************************************************************)
 EXTENDS RTWorklist
 
+\* TLC compares records field by field in the order in which the field names first occur in the root module.  Shape
+\* arguments [k, x] carry a scalar, a list or a matrix in x: the tag k has to be met first, otherwise building the
+\* operation alphabet dies with "attempted to compare integer with non-integer".  This definition pins that order.
+FieldOrderPin == [k |-> 0, x |-> 0]
+
 CONSTANTS Dev,        \* "evo" | "fluent"
           WlMax,      \* worklist max_volume (units)
           AutoSplit,
           MaxDepth,
           Family      \* which operation alphabet
 
-VARIABLES S, wl, out, allok, prevok, tracked, nodisp, S0, chk, depth
-vars == <<S, wl, out, allok, prevok, tracked, nodisp, S0, chk, depth>>
+VARIABLES S, wl, out, allok, prevok, tracked, nodisp, S0, chk, depth,
+          cfg        \* the worklist's public configuration [wlmax, autosplit]; callers may assign it between operations
+vars == <<S, wl, out, allok, prevok, tracked, nodisp, S0, chk, depth, cfg>>
 
 P == 1
 Q == 2
-T == [dev |-> Dev, unitc |-> 100, k |-> 1, wlmax |-> WlMax, wlmaxc |-> WlMax * 100,
-      autosplit |-> AutoSplit, diti |-> FALSE,
+\* configurations a caller may switch to (family "config" only); every operation obeys the one current at its call
+Cfgs == IF Family = "config"
+        THEN {[wlmax |-> 2, autosplit |-> TRUE], [wlmax |-> 5, autosplit |-> TRUE], [wlmax |-> 3, autosplit |-> FALSE]}
+        ELSE {}
+MaxWlMax == LET all == {WlMax} \cup {c.wlmax : c \in Cfgs} IN CHOOSE m \in all : \A y \in all : y <= m
+T == [dev |-> Dev, unitc |-> 100, k |-> 1, wlmax |-> cfg.wlmax, wlmaxc |-> cfg.wlmax * 100,
+      autosplit |-> cfg.autosplit, diti |-> FALSE,
       lw |-> << [name |-> "P", g |-> PlateGeom(2, 2), minv |-> 0, maxv |-> 6, grid |-> 11, site |-> 0],
                 [name |-> "Q", g |-> TroughGeom(2, 2), minv |-> 1, maxv |-> 8, grid |-> 12, site |-> 1] >>]
 
@@ -104,10 +115,20 @@ MixedOps ==
   \cup {[op |-> "dispense", lw |-> P, wells |-> Li(<<<<1, 0>>>>), vols |-> Sc(2), label |-> NoLabel, hascomps |-> TRUE,
           comps |-> <<{<<"x", 1, 2>>, <<"y", 1, 2>>}>>, kw |-> DefaultKw]}
 
+\* operations whose outcome and plan depend on the configuration
+ConfigOps ==
+  {TrOp(Q, P, <<s>>, <<d>>, Sc(v), NoLabel, "1", "auto") : s \in {<<0, 0>>}, d \in {<<0, 0>>, <<0, 1>>}, v \in {3, 5}}
+  \cup {TrOp(Q, P, <<<<0, 0>>, <<1, 0>>>>, <<<<0, 0>>, <<1, 0>>>>, Li(<<1, 3>>), Lab("t"), "1", "auto")}
+  \cup {DiOp(Q, 0, P, <<<<0, 0>>, <<1, 0>>, <<0, 1>>>>, 1, 3, NoLabel)}
+  \cup {LwOp("aspirate", Q, Li(<<<<0, 0>>>>), Sc(3), NoLabel),
+        [op |-> "dispense", lw |-> P, wells |-> Li(<<<<1, 1>>>>), vols |-> Sc(4), label |-> NoLabel, hascomps |-> TRUE,
+         comps |-> <<{<<"x", 1, 1>>}>>, kw |-> DefaultKw]}
+
 Ops == CASE Family = "labware"    -> LabwareOps \cup DispenseCompOps
          [] Family = "transfer"   -> TransferOps
          [] Family = "distribute" -> DistributeOps \cup {o \in LabwareOps : o.op = "aspirate" /\ o.vols = Sc(1)} \cup DispenseCompOps
          [] Family = "mixed"      -> MixedOps
+         [] Family = "config"     -> ConfigOps
          [] Family = "all"        -> LabwareOps \cup DispenseCompOps \cup TransferOps \cup DistributeOps
          [] Family = "transferq"  -> {o \in TransferOps : o.wash # "reuse" /\ o.pby \in {"auto", "destination"}
                                                           /\ (o.src # o.dst \/ o.vols = Li(<<3, 1>>))}
@@ -169,11 +190,13 @@ RejectStep(St, o, r) ==
   \* an operation rejected for its arguments leaves twin and worklist untouched
   (r.out \in {"other", "value", "compat"} /\ o.op \in {"add", "remove", "transfer", "distribute"}) => r.S = St /\ r.recs = <<>>
 
+StepMaxStep(r) == \A i \in 1..Len(r.recs) : r.recs[i].t \in {"A", "D"} => r.recs[i].cents <= T.wlmaxc
+
 StepChecks(St, o, r) ==
-  [limits |-> LimitsStep(St, r), conserved |-> ConservedStep(St, o, r), removekeeps |-> RemoveKeepsStep(St, o, r),
+  [stepmax |-> StepMaxStep(r), limits |-> LimitsStep(St, r), conserved |-> ConservedStep(St, o, r), removekeeps |-> RemoveKeepsStep(St, o, r),
    hist |-> HistStep(St, o, r), plan |-> PlanStep(St, o, r), reject |-> RejectStep(St, o, r)]
 
-AllTrue == [limits |-> TRUE, conserved |-> TRUE, removekeeps |-> TRUE, hist |-> TRUE, plan |-> TRUE, reject |-> TRUE]
+AllTrue == [stepmax |-> TRUE, limits |-> TRUE, conserved |-> TRUE, removekeeps |-> TRUE, hist |-> TRUE, plan |-> TRUE, reject |-> TRUE]
 
 (***************************************************************************)
 InitVols == {<< <<4, 0, 2, 0>>, <<6, 4>> >>, << <<0, 0, 0, 0>>, <<8, 1>> >>, << <<6, 2, 0, 4>>, <<2, 6>> >>}
@@ -184,7 +207,8 @@ InitState(v) ==
                InitComp("Q", T.lw[Q].g, v[Q], [i \in 1..2 |-> [h |-> FALSE, l |-> ""]]) >>,
    hist |-> << InitHist(v[P]), InitHist(v[Q]) >>]
 
-Init == /\ \E v \in InitVols : S = InitState(v) /\ S0 = InitState(v)
+Init == /\ cfg = [wlmax |-> WlMax, autosplit |-> AutoSplit]
+        /\ \E v \in InitVols : S = InitState(v) /\ S0 = InitState(v)
         /\ wl = <<>> /\ out = "ok" /\ allok = TRUE /\ prevok = TRUE /\ tracked = TRUE /\ nodisp = TRUE /\ chk = AllTrue /\ depth = 0
 
 \* one operation of the alphabet, tried in the current state (it may be rejected)
@@ -200,14 +224,21 @@ Do(o) == LET r == Apply(S, o) IN
          \* after a partially applied failure the newest entry may lag behind the volumes (see DESIGN section 6)
          /\ chk' = [StepChecks(S, o, r) EXCEPT !.hist = (allok => @)]
          /\ depth' = depth + 1
-         /\ UNCHANGED S0
+         /\ UNCHANGED <<S0, cfg>>
 
-Next == depth < MaxDepth /\ \E o \in Ops : Do(o)
+\* the caller assigns max_volume / auto_split: no record, no change of any labware
+SetCfg(c) == /\ c # cfg /\ cfg' = c
+             /\ out' = "ok" /\ prevok' = allok /\ chk' = AllTrue /\ depth' = depth + 1
+             /\ UNCHANGED <<S, wl, allok, tracked, nodisp, S0>>
+
+Next == depth < MaxDepth /\ ((\E o \in Ops : Do(o)) \/ (\E c \in Cfgs : SetCfg(c)))
 
 (***************************************************************************)
 (* Invariants                                                              *)
 (***************************************************************************)
-Robot == Run(T, S0.vol, S0.comp, wl)
+\* the robot's diluter is as large as the largest configuration in use; that every step respects the configuration
+\* current when it was emitted is the step check chk.stepmax
+Robot == Run([T EXCEPT !.wlmax = MaxWlMax, !.wlmaxc = MaxWlMax * 100], S0.vol, S0.comp, wl)
 
 \* C01: as long as every operation was a worklist operation that succeeded, the robot executing the worklist reproduces the twin
 InvTwinEqualsRobot == (allok /\ tracked) =>
@@ -218,7 +249,7 @@ InvTwinEqualsRobot == (allok /\ tracked) =>
 \* C03: up to and including the first rejected operation (however it aborted), replaying the
 \* worklist accumulated so far stays within all limits
 InvReplayWithinLimits == (prevok /\ tracked) => Robot.err = ""
-InvStepMax == \A i \in 1..Len(wl) : wl[i].t \in {"A", "D"} => wl[i].cents <= T.wlmaxc
+InvStepMax == chk.stepmax /\ \A i \in 1..Len(wl) : wl[i].t \in {"A", "D"} => wl[i].cents <= MaxWlMax * 100
 \* C02
 InvBounds == \A k \in {P, Q} : VolumesWithinLimits(T.lw[k], S.vol[k])
 InvLimitsStep == chk.limits
